@@ -103,6 +103,11 @@ pub fn run(ctx: &mut Ctx) {
                 let mut crng = rng.fork(my);
                 let small = round == 0 && comp == Comp::None;
                 let mut spec = container::random_spec(&mut crng, *mode, comp, if small { 2 } else { 6 }, if small { 0 } else { 1 });
+                if !small {
+                    // pack ids are the caller's choice: dense (2) and sparse (3, 8) ids of the extra pack
+                    spec.id_gap = [1u16, 6, 0][(my % 3) as usize];
+                    ctx.count(&format!("extra_pack_id:{}", spec.pack_id(2)));
+                }
                 if small {
                     for it in spec.items.iter_mut() {
                         it.data.truncate(40);
